@@ -557,6 +557,100 @@ def size_inits(quick):
 
 
 # ---------------------------------------------------------------------------------------------
+# shared executors across propagations of the SAME pair of sizes at OTHER samplings, both directions (history)
+
+# shift in output samples; (s * d) / d == s exactly for s in {1, -2}, so the forward and the reverse trip hand the engines
+# the very same shift whatever the spacings are
+Q_SHIFTS = [[0, 0], [1, -2]]
+
+
+def q_apply(st, ev, R):
+    # ev = [direction, method, n_in, n_out, sampling index, shift index]
+    direction, method, n, M, si, hi = ev
+    wvl, efl, dxp, dxf = st.init['samplings'][si]
+    sh, k = Q_SHIFTS[hi], st.init['k']
+    if direction == 'focus':
+        su = (sh[0] * dxf, sh[1] * dxf)
+        p = tilted_pupil(n, n, k[0], k[1])
+        out = R.call(Wavefront(p, wvl, dxp, 'pupil').focus_fixed_sampling, efl, dxf, M, shift=su, method=method, sig=f'samplings:focus:{method}:exception')
+    else:
+        su = (sh[0] * dxp, sh[1] * dxp)
+        d = np.zeros((n, n), dtype=complex)
+        d[n // 2, n // 2] += 1
+        d[n // 2 + k[1], n // 2 + k[0]] += 1
+        out = R.call(Wavefront(d, wvl, dxf, 'psf').unfocus_fixed_sampling, efl, dxp, M, shift=su, method=method, sig=f'samplings:unfocus:{method}:exception')
+    st.last = (ev, out)
+    st.done.append(list(ev))
+    return st
+
+
+def q_check(st, init, hist, R):
+    if st.last is None:
+        return
+    (direction, method, n, M, si, hi), out = st.last
+    if out is FAILED:
+        return
+    wvl, efl, dxp, dxf = init['samplings'][si]
+    sh, k = Q_SHIFTS[hi], init['k']
+    sig = f'samplings:{direction}:{method}:' + ('after-other-calls' if len(hist) > 1 else 'first')
+    a = as_array(R, getattr(out, 'data', None), sig)
+    if a is None:
+        return
+    if a.shape != (M, M):
+        R.violation(sig, f'shape {a.shape} != {(M, M)}')
+        return
+    amp = dxp * dxf / (wvl * efl)
+    if direction == 'focus':
+        R.expect(getattr(out, 'dx', None) == dxf, sig + ':dx', f'reported dx {getattr(out, "dx", None)}, requested {dxf}')
+        X = (ax(M) * dxf - sh[0] * dxf)[None, :]
+        Y = (ax(M) * dxf - sh[1] * dxf)[:, None]
+        want = focal_modulus(n, n, dxp, wvl, efl, k[0], k[1], X, Y, dxf)
+        extent = (M / 2 + 2) * dxf * dxp / (wvl * efl) * n + 2 + max(abs(k[0]), abs(k[1]))
+        R.expect_close(np.abs(a), want, tol_for(n, n, amp, extent), sig,
+                       f'{method}: pupil {n} -> {M} samples, dx {dxp:.6g}mm -> {dxf:.6g}um, lam {wvl}, shift {sh} samples, after {hist[:-1]}: |field| vs closed-form kernel centred at k lam f/D on the requested grid')
+    else:
+        R.expect(getattr(out, 'dx', None) == dxp, sig + ':dx', f'reported dx {getattr(out, "dx", None)}, requested {dxp}')
+        x0, y0 = k[0] * dxf, k[1] * dxf
+        xp = ax(M) * dxp - sh[0] * dxp
+        yp = ax(M) * dxp - sh[1] * dxp
+        arg = 2 * np.pi * (xp[None, :] * x0 + yp[:, None] * y0) / (wvl * efl)
+        want = amp * (1 + np.exp(1j * arg))
+        tol = 2e3 * EPS * amp * (2 + float(np.max(np.abs(arg))))
+        what = f'{method}: focal {n} -> pupil {M} samples, dx {dxf:.6g}um -> {dxp:.6g}mm, lam {wvl}, shift {sh} samples, after {hist[:-1]}: field of two point sources (origin, ({x0:.6g}, {y0:.6g})um) vs 1 + exp(+2 pi i x x0/(lam f))'
+        if any(sh):
+            R.expect_close(np.abs(a), np.abs(want), tol, sig, '|.| of the ' + what)
+        else:
+            R.expect_close(a, want, tol, sig, what)
+    R.nontrivial(len(hist) > 1)
+    R.outcome(f'{direction}:{method}')
+
+
+def sampling_inits(quick):
+    """per init: two sizes A, B and a sampling alphabet [lam, f, dx_pupil, dx_focal]: the first is the reference; the others change
+    the focal spacing, the pupil spacing + wavelength, the focal length -- each changes Q = lam f/(n dx_in dx_out) of every trip.
+    Events: {focus, unfocus} x {mdft, czt} x (n_in, n_out) in {(A,B), (B,A), (A,A)} x sampling x shift in Q_SHIFTS.  A trip B -> A at
+    the sampling of an earlier trip A -> B is the matched return trip (Q_back n_back == Q_out n_out); at another sampling it is not."""
+    fams = [{'A': 6, 'B': 9, 'k': [1, -2]}] + ([] if quick else [{'A': 8, 'B': 5, 'k': [-2, 1]}, {'A': 7, 'B': 12, 'k': [2, 3]}])
+    inits = []
+    for f in fams:
+        A, B = f['A'], f['B']
+        wvl, efl, dxp = 0.5, 100.0, 0.1
+        dxf = 0.73 * wvl * efl / (A * dxp)
+        samplings = [[wvl, efl, dxp, dxf], [wvl, efl, dxp, 1.7 * dxf], [0.6, efl, 0.08, dxf]] + ([] if quick else [[wvl, 37.5, dxp, dxf]])
+        ev = []
+        for method in ('mdft', 'czt'):
+            for direction in ('focus', 'unfocus'):
+                for n, M in ([A, B], [B, A], [A, A]):
+                    if method == 'czt' and n == M:
+                        continue                      # czt is the control; its own size-sharing state is the business of size_history
+                    for si in range(len(samplings)):
+                        for hi in range(len(Q_SHIFTS)):
+                            ev.append([direction, method, n, M, si, hi])
+        inits.append({'samplings': samplings, 'k': f['k'], 'events': ev})
+    return inits
+
+
+# ---------------------------------------------------------------------------------------------
 # (c): reverse
 
 def positions(n0, n1, every):
@@ -692,6 +786,111 @@ def run_fixed_unfocus(case, seed, R):
                     R.expect_close(a, want, 2 * tol, sigw, f'pupil field of two {dt} point sources (origin and ({x0:.6g}, {y0:.6g})um)')
     R.nontrivial()
     R.outcome(f'unfocus:{cell}')
+
+
+# ---------------------------------------------------------------------------------------------
+# argument forms of the requested shift; the SAME shift object handed to call after call
+
+FORM_TILTS = [[1, 0], [0, -2], [1.25, -0.5], [-1, 2]]
+
+
+def shift_forms(sh, dxo):
+    """[name, object handed to the library, (sx, sy) in output units it stands for]: every sequence form HEAD answers for (a non-zero
+    shift as tuple / list / tuple of numpy scalars / float64 ndarray / a strided float64 view / int64 ndarray of whole output units).
+    A float64 ndarray is the form a routine can rescale IN PLACE through np.asarray(shift) -- the object is built once per case and
+    handed to every call of the case"""
+    su = (sh[0] * dxo, sh[1] * dxo)
+    # whole output units (um / mm) next to the requested ones, same zero pattern, never 0 where the shift is not
+    iu = tuple(0 if v == 0 else int(math.copysign(max(1.0, round(abs(v))), v)) for v in su)
+    return [
+        ['tuple', (su[0], su[1]), su],
+        ['ndarray-f64', np.array(su, dtype=np.float64), su],
+        ['list', [su[0], su[1]], su],
+        ['npscalars', (np.float64(su[0]), np.float64(su[1])), su],
+        ['view-f64', np.array([su[0], 7.0, su[1], 7.0], dtype=np.float64)[::2], su],
+        ['ndarray-int', np.array(iu, dtype=np.int64), (float(iu[0]), float(iu[1]))],
+    ]
+
+
+def _form_values(obj):
+    try:
+        return (float(obj[0]), float(obj[1]))
+    except Exception:   # noqa
+        return None
+
+
+def run_shift_forms(case, seed, R):
+    """one case = one configuration and one shift; per form ONE shift object, handed to 2 rounds x {mdft, czt} x {function, Wavefront
+    method} calls with other field content each time (what a caller looping over methods / wavelengths / planes does); every call is
+    judged by the closed form displaced by the shift the object stood for when it was built, and the object must still hold it"""
+    n0, n1 = case['n']
+    wvl, efl, dxp = case['units']
+    rel, form, sh = case['dxrel'], case['samp'], case['shift']
+    focus = case['dir'] == 'focus'
+    so = out_samples(form, n0, n1)
+    samples_arg = so if so[0] != so[1] else so[0]
+    if focus:
+        dxi, dxo = dxp, wvl * efl / (n1 * dxp) * rel           # pupil mm -> focal um
+    else:
+        dxi, dxo = wvl * efl / (n1 * dxp), dxp * rel           # focal um -> pupil mm
+    amp = dxi * dxo / (wvl * efl)
+    fname = 'focus_fixed_sampling' if focus else 'unfocus_fixed_sampling'
+    func = getattr(propagation, fname, None)
+    pos = near_positions(n0, n1)[1:]
+    for name, obj, su in shift_forms(sh, dxo):
+        X = (ax(so[1]) * dxo - su[0])[None, :]
+        Y = (ax(so[0]) * dxo - su[1])[:, None]
+        ci = 0
+        for rnd in range(2):
+            for method in ('mdft', 'czt'):
+                for path in ('function', 'Wavefront'):
+                    sig = ('Wavefront.' if path == 'Wavefront' else '') + f'{fname}:{method}:shift-form:{name}'
+                    what = f'shift given as {name} ({su[0]:.6g}, {su[1]:.6g}), call {ci + 1} with the same object'
+                    if focus:
+                        kx, ky = FORM_TILTS[ci % len(FORM_TILTS)]
+                        field = tilted_pupil(n0, n1, kx, ky)
+                        want = focal_modulus(n0, n1, dxp, wvl, efl, kx, ky, X, Y, dxo)
+                        extent = max(np.max(np.abs(X)) * n1, np.max(np.abs(Y)) * n0) * dxp / (wvl * efl) + 4.0
+                        tol = tol_for(n0, n1, amp, extent)
+                        what = f'|field| of the pupil tilted by ({kx}, {ky}) waves vs closed form displaced by the shift; ' + what
+                    else:
+                        i, j = pos[ci % len(pos)]
+                        field = np.zeros((n0, n1), dtype=complex)
+                        field[n0 // 2, n1 // 2] += 1
+                        field[i, j] += 1
+                        x0, y0 = (j - n1 // 2) * dxi, (i - n0 // 2) * dxi
+                        arg = 2 * np.pi * (X * x0 + Y * y0) / (wvl * efl)
+                        want = amp * np.abs(1 + np.exp(1j * arg))
+                        tol = 2e3 * EPS * amp * (2 + float(np.max(np.abs(arg))))
+                        what = f'|pupil field| of two point sources (origin and ({x0:.6g}, {y0:.6g})um) vs 2|cos| displaced by the shift; ' + what
+                    ci += 1
+                    if path == 'function':
+                        got = R.call(func, field, dxi, efl, wvl, dxo, samples_arg, shift=obj, method=method, sig=sig + ':exception')
+                    else:
+                        w = Wavefront(field, wvl, dxi, 'pupil' if focus else 'psf')
+                        got = R.call(getattr(w, fname), efl, dxo, so, shift=obj, method=method, sig=sig + ':exception')
+                        got = FAILED if got is FAILED else getattr(got, 'data', None)
+                    a = as_array(R, got, sig)
+                    if a is not None:
+                        R.expect_close(np.abs(a), want, tol, sig, what)
+                    R.expect(_form_values(obj) == (float(su[0]), float(su[1])),
+                             f'{fname}:shift-form:{name}:argument-rescaled', f'the shift object handed in holds {_form_values(obj)} after the call, it was built as {su}')
+    R.nontrivial()
+    R.outcome(f'shift-forms:{case["dir"]}:{sq(n0, n1)}')
+
+
+def shift_form_cases(quick):
+    shapes = [[4, 4], [5, 5], [3, 6], [6, 3]] + ([] if quick else [[7, 5], [2, 2], [8, 9], [9, 9]])
+    units = (UNITS[0], UNITS[7]) if quick else UNITS
+    cases = []
+    for direction in ('focus', 'unfocus'):
+        for s in shapes:
+            for u in units:
+                for rel in DXRELS:
+                    for form in (['N+1'] if quick else SAMP):
+                        for sh in SHIFTS[1:]:
+                            cases.append({'dir': direction, 'n': s, 'units': u, 'dxrel': rel, 'samp': form, 'shift': sh})
+    return cases
 
 
 # ---------------------------------------------------------------------------------------------
@@ -1032,6 +1231,17 @@ def plan(tier, seed):
                     'BFS (depth 2 quick = every ordered pair, 3 thorough) on the SHARED czt / mdft executors without clear(): per initial state one fixed pair of spacings and a family of sizes whose '
                     'n_in + n_out - 1 share a fast FFT length (5->{9,10,8}, 9->{15,16}, 10->{28,29,31}; thorough also 48->{72,66,67,70}); events: fixed pupil -> every output count, every pupil size -> fixed output count, '
                     'both methods, plus czt unfocus; canonical state = ordered list of distinct calls made; invariant after every call: the spot is at k lam f/D on the reported grid (closed form), the un-focused point source has the closed-form tilt', reset=rs),
+        ScopeUnit('shift_forms', shift_form_cases(quick), run_shift_forms,
+                  'argument forms of the requested shift: {focus, unfocus}_fixed_sampling x shapes {4, 5, 3x6, 6x3} (thorough also 7x5, 2, 8x9, 9) x 2 unit sets (thorough 8) x requested dx in '
+                  f'{DXRELS} x native x samples_out N+1 (thorough every form) x every non-zero shift of {SHIFTS[1:]} output samples; inside every case the form alphabet [tuple, float64 ndarray, list, tuple of '
+                  'numpy scalars, strided float64 view, int64 ndarray of whole output units]: ONE object per form, handed to 2 rounds x {mdft, czt} x {function, Wavefront method} consecutive calls with other '
+                  f'field content each time (tilts {FORM_TILTS} / origin + one of 5 source positions): every call judged by the closed form displaced by the shift the object was built with (modulus), and the '
+                  'object must still hold those values after every call.  Zero shifts are only given as tuples (mdft on HEAD cannot hash a zero list / ndarray; the docstring says tuple)', reset=rs),
+        HistoryUnit('sampling_history', sampling_inits(quick), s_fresh, s_events, q_apply, q_check, s_canon, 2,
+                    'BFS depth 2 (= every ordered pair of calls) on the SHARED mdft / czt executors without clear(): sizes A=6, B=9 (thorough also 8/5, 7/12); events {focus, unfocus}_fixed_sampling (Wavefront methods) x '
+                    '{mdft; czt as control} x (n_in, n_out) in {(A,B), (B,A), (A,A) mdft only} x sampling in [reference; focal dx x 1.7; pupil dx 0.08 + lam 0.6; thorough: f 37.5] x shift in {none, (1,-2) samples, the same '
+                    'in samples for both directions}: a trip back at the sampling of the trip out (matched Q) and at any other; canonical state = ordered list of distinct calls; invariant after every call: the spot is at '
+                    'k lam f/D (+ shift) on the REQUESTED grid of THIS call (closed form), two point sources un-focus to 1 + exp(+2 pi i x x0/(lam f)) on the requested pupil grid (complex when unshifted, modulus when shifted)', reset=rs),
         HistoryUnit('coords_history', [{'n': 4, 'Q': 2}, {'n': 5, 'Q': 1}, {'n': 3, 'Q': 1.5}], h_fresh, h_events, h_apply, h_check, h_canon, hdepth,
                     f'BFS to depth {hdepth} over events [focus:A, focus:B (same shape and dx, other tilt), focus:C (other shape), fixed:A (same grid through focus_fixed_sampling), '
                     'read:first / read:last (.intensity.x/.y of a held result handed to the caller), edit-in-place (the caller re-references and rescales the arrays it was handed)]; '
